@@ -78,8 +78,12 @@ def prune_names(prog):
             del prog["cbs"][c]
     except StopIteration:
         pass
-    prog["events"] = [e for e in prog.get("events", []) if any(e in t["events"] for t in prog["trans"])]
-    seen = set()
+    prog["events"] = [e for e in prog.get("events", [])
+                      if any(e in t["events"] for t in prog["trans"] + prog.get("any", []))]
+    if prog.get("event_decl"):
+        # a stand-alone ``Event()`` attribute that no transition uses would still be a declared event
+        prog["event_decl"] = [e for e in prog["event_decl"] if any(e in t["events"] for t in prog["trans"])]
+    seen = set(prog.get("event_decl") or []) | {a["events"][0] for a in prog.get("any", [])}
     for t in prog["trans"]:
         if t.get("assign") and (t["assign"] in seen or t["events"] != [t["assign"]]):
             del t["assign"]
